@@ -43,7 +43,7 @@ CLIENT_NOTE = ("Trusted: harness (sim net/broker/store, codec, gate scheduler), 
   "is observed as no event for 250 ms in the healed world with the blocked frame inside the package.")
 for pid, fam in [("C01","out,restart"),("C02","restart"),("C03","out,restart"),("C04","in,inrestart"),("C05","out,restart"),("C07","in"),
                  ("C08","req,out"),("C14","req,close,out,connect"),("C10","connect,req,out"),("C11","req,close"),("C12","close"),("C13","hostile,in"),("C16","damage"),("C17","out,restart,req"),("C18","connect,out")]:
-    mc = pid in ("C01","C03","C05","C10","C12","C17","C18","C14","C08","C11")
+    mc = pid in ("C01","C03","C05","C10","C12","C17","C18","C14","C08","C11","C04","C07","C13")
     CHECKS[pid] = dict(engine="client", level="model_checking" if mc else "exploration",
         technique=("TLC model checking of spec/MqttClient.tla (gate-level model) + TLC-exported behaviours replayed step by step on the real client + " if mc else "") +
                   "gate-scheduled executions of the real client (seeded schedules + faults) judged by TLC with the TLA+ observation monitor spec/Monitor.tla",
